@@ -230,15 +230,15 @@ func c15MappingDiff(a, b []byte) string {
 
 func init() {
 	lib.Register(&lib.Property{
-		ID:    "C15",
-		Level: "exploration",
-		Rule: "pairs (generic, equal shares of several old files = ties in the optimizer's mapping choice, many tiny files = many per-file goroutine triples, files of 0/1/16K±1/64K/128K+1 bytes); each diffed R times (6 quick / 16 thorough) with a different controller seed per run: source pool slicing every read to a random short length and yielding/spinning/sleeping, patch and signature sinks that perturb the diff and sign goroutines independently, GOMAXPROCS cycling 1/2/4/16; patch and signature bytes must be identical across runs; the optimizer is run R times for three parameter sets with the bsdiff hooks perturbing workers/dispatcher/collector on every other run and must produce identical bytes. The same reduced list runs under the Go race detector; every de-duplicated report with a wharf frame in pwr/diff, multiread, taskgroup, ctxcopy, wsync, bsdiff or pwr/rediff is a violation. distinct = distinct (shape, compression, pair)",
-		Assumptions: []string{"the race detector only sees executed interleavings", "map iteration order cannot be controlled, only sampled by repetition"},
-		Flavors: func(tier string) []string { return []string{"plain", "race"} },
-		Cases:   c15Cases,
-		Run:     c15Run,
-		Batch:   3,
-		CaseBudget: 600 * 1e9,
+		ID:           "C15",
+		Level:        "exploration",
+		Rule:         "pairs (generic, equal shares of several old files = ties in the optimizer's mapping choice, many tiny files = many per-file goroutine triples, files of 0/1/16K±1/64K/128K+1 bytes); each diffed R times (6 quick / 16 thorough) with a different controller seed per run: source pool slicing every read to a random short length and yielding/spinning/sleeping, patch and signature sinks that perturb the diff and sign goroutines independently, GOMAXPROCS cycling 1/2/4/16; patch and signature bytes must be identical across runs; the optimizer is run R times for three parameter sets with the bsdiff hooks perturbing workers/dispatcher/collector on every other run and must produce identical bytes. The same reduced list runs under the Go race detector; every de-duplicated report with a wharf frame in pwr/diff, multiread, taskgroup, ctxcopy, wsync, bsdiff or pwr/rediff is a violation. distinct = distinct (shape, compression, pair)",
+		Assumptions:  []string{"the race detector only sees executed interleavings", "map iteration order cannot be controlled, only sampled by repetition"},
+		Flavors:      func(tier string) []string { return []string{"plain", "race"} },
+		Cases:        c15Cases,
+		Run:          c15Run,
+		Batch:        3,
+		CaseBudget:   600 * 1e9,
 		RaceDeciding: true,
 		RaceFilter: func(rep string) bool {
 			for _, p := range []string{"wharf/pwr.", "wharf/pwr/rediff", "wharf/multiread", "wharf/taskgroup", "wharf/ctxcopy", "wharf/wsync", "wharf/bsdiff", "wharf/wire", "wharf/splitfunc"} {
